@@ -1,6 +1,7 @@
 use std::mem;
 
 use bytes::{Buf as _, BufMut, BytesMut};
+use tokio::io::{AsyncRead, AsyncReadExt};
 
 use super::{ThriftException, new_protocol_exception};
 
@@ -14,6 +15,25 @@ impl From<IOError> for ThriftException {
     fn from(e: IOError) -> Self {
         new_protocol_exception(super::ProtocolExceptionKind::InvalidData, format!("{}", e))
     }
+}
+
+/// Upper bound on the memory reserved up front for a length-prefixed value read
+/// from an asynchronous stream. The rest is allocated as the bytes actually
+/// arrive, so a declared length cannot make the reader allocate far more than
+/// the peer has sent.
+const ASYNC_PREALLOC_LIMIT: usize = 64 * 1024;
+
+/// Reads exactly `len` bytes from `reader` into a new vector.
+pub(crate) async fn read_exact_vec<R>(reader: &mut R, len: usize) -> std::io::Result<Vec<u8>>
+where
+    R: AsyncRead + Unpin,
+{
+    let mut v = Vec::with_capacity(len.min(ASYNC_PREALLOC_LIMIT));
+    let n = reader.take(len as u64).read_to_end(&mut v).await?;
+    if n < len {
+        return Err(std::io::ErrorKind::UnexpectedEof.into());
+    }
+    Ok(v)
 }
 
 macro_rules! io_read_impl {
